@@ -54,7 +54,12 @@ pub(crate) fn range_with_prefix<'a>(
 
     // make a copy for the closure to handle lifetimes safely
     let prefix = namespace.to_vec();
-    let mapped = base_iterator.map(move |(k, v)| (trim(&prefix, &k), v));
+    // a raw key shorter than the namespace sorts inside the bounds when the namespace ends with 0xFF bytes
+    // (`fp` lies between `fo\xff` and the upper bound `fp\0`): it does not belong to this namespace
+    let own = prefix.clone();
+    let mapped = base_iterator
+        .filter(move |(k, _)| k.starts_with(&own))
+        .map(move |(k, v)| (trim(&prefix, &k), v));
     Box::new(mapped)
 }
 
